@@ -8,7 +8,7 @@
     reread_nostrip reread_strip strip_commutes_escape site_yields_plain markup_add_escapes
     structure_preserved_partial render_stream_ok hole_is_data emit_both_implementations markup_format_site
     payload_is_data structure_preserved_markup_partial reread_wellnested
-    attrs_site_partial attrs_site_none_removes attrs_site_others_untouched attrs_blank_dropped
+    attrs_site attrs_site_none_removes attrs_site_others_untouched attrs_blank_kept
     script_text_is_raw div_text_is_escaped attr_name_not_escaped pre_keeps_whitespace div_normalises_whitespace
     text_cr_not_recovered_xml attr_lf_not_recovered_xml control_char_not_wellformed_xml
     cache_unobservable noescape_cleared_by_end site_after_end_is_escaped escaping_by_enclosing_elements
@@ -356,25 +356,21 @@ theorem items_map_names (env : Env) (items : List (Subst.Name × Atom)) :
       = items.map (·.1) := by
   simp [List.map_map, Function.comp_def]
 
-/-- `py:attrs`, full statement (FALSE for the code, witness `attrs_blank_dropped`):
-      a name whose value is not `None` carries that value, surrounding white space trimmed.
-    Proved with the excluding hypothesis: the trimmed value is not empty.
+/-- `py:attrs`, full statement: a name whose value is not `None` carries that value, surrounding
+    white space trimmed — also when nothing is left after trimming (fix ce82919; before it the
+    attribute was dropped, finding C01-attrs-blank-dropped).
     (The names of the expression are distinct, as the keys of a dictionary are.) -/
-theorem attrs_site_partial (env : Env) (attrs : List (Subst.Name × AttrSpec)) (items : List (Subst.Name × Atom))
+theorem attrs_site (env : Env) (attrs : List (Subst.Name × AttrSpec)) (items : List (Subst.Name × Atom))
     (n : Subst.Name) (a : Atom) (hmem : (n, a) ∈ items) (hnd : (items.map (·.1)).Nodup)
-    (hv : evalAtom env a ≠ .none) (hnb : pyStrip (pyStr (evalAtom env a)) ≠ []) :
+    (hv : evalAtom env a ≠ .none) :
     (n, pyStrip (pyStr (evalAtom env a))) ∈ evalAttrs env (applyPyAttrs env attrs items) := by
   have hsv : stripValue (evalAtom env a) = some (pyStrip (pyStr (evalAtom env a))) := by
-    have hne : (pyStrip (pyStr (evalAtom env a))).isEmpty = false := by
-      cases h : pyStrip (pyStr (evalAtom env a)) with
-      | nil => exact absurd h hnb
-      | cons _ _ => rfl
     cases hx : evalAtom env a with
     | none => exact absurd hx hv
-    | str s => simp only [hx] at hne; simp [stripValue, hne]
-    | markup s => simp only [hx] at hne; simp [stripValue, hne]
-    | num s => simp only [hx] at hne; simp [stripValue, hne]
-    | obj s h => simp only [hx] at hne; simp [stripValue, hne]
+    | str s => rfl
+    | markup s => rfl
+    | num s => rfl
+    | obj s h => rfl
   rw [mem_evalAttrs]
   refine ⟨.static (pyStrip (pyStr (evalAtom env a))), ?_, rfl⟩
   unfold applyPyAttrs
@@ -387,10 +383,11 @@ theorem attrs_site_partial (env : Env) (attrs : List (Subst.Name × AttrSpec)) (
   · exact List.mem_map.mpr ⟨(n, a), hmem, by simp [hsv]⟩
   · rw [items_map_names]; exact hnd
 
-/-- `None` — and, as the code is, a value that is blank after trimming — removes the attribute. -/
+/-- `None` removes the attribute. -/
 theorem attrs_site_none_removes (env : Env) (attrs : List (Subst.Name × AttrSpec)) (items : List (Subst.Name × Atom))
-    (n : Subst.Name) (a : Atom) (hmem : (n, a) ∈ items) (hv : stripValue (evalAtom env a) = none) :
+    (n : Subst.Name) (a : Atom) (hmem : (n, a) ∈ items) (hv0 : evalAtom env a = .none) :
     ∀ p ∈ evalAttrs env (applyPyAttrs env attrs items), p.1 ≠ n := by
+  have hv : stripValue (evalAtom env a) = none := by rw [hv0]; rfl
   intro p hp hpn
   obtain ⟨k, v⟩ := p
   simp only at hpn
@@ -424,10 +421,10 @@ theorem attrs_site_others_untouched (env : Env) (attrs : List (Subst.Name × Att
     · rintro ⟨sp, h1, h2⟩
       exact ⟨sp, (gOr_untouched attrs _ n sp hno').mpr h1, h2⟩
 
-/-- witness (finding C01-attrs-blank-dropped): `<a py:attrs="{'title': ' '}"/>` has no `title` -/
-theorem attrs_blank_dropped :
+/-- regression witness (C01-attrs-blank-dropped, fixed): `<a py:attrs="{'title': ' '}"/>` has an empty `title` -/
+theorem attrs_blank_kept :
     renderNode [] (.el ['a'] [] (some [(['t', 'i', 't', 'l', 'e'], .lit (.str [' ']))]) [])
-      = [.start ['a'] [], .end_ ['a']] := by decide
+      = [.start ['a'] [(['t', 'i', 't', 'l', 'e'], [])], .end_ ['a']] := by decide
 
 /-! ## the composition -/
 
@@ -438,8 +435,7 @@ theorem attrs_blank_dropped :
     re-reading the rendered output gives the skeleton of the template with every value that is
     not marked safe as character data or attribute value, verbatim (trimmed at `py:attrs`),
     except inside script/style under html and inside CDATA.
-    The full statement is FALSE of the code: `attrs_blank_dropped` (py:attrs drops blank values),
-    `attr_lf_not_recovered_xml`, `text_cr_not_recovered_xml`, `control_char_not_wellformed_xml`
+    The full statement is FALSE of the code: `attr_lf_not_recovered_xml`, `text_cr_not_recovered_xml`, `control_char_not_wellformed_xml`
     (what a conforming XML processor does to TAB/LF/CR and non-Char characters).
 
     PROVED: for every template of the grammar, every environment, all three methods and both
@@ -456,8 +452,8 @@ theorem attrs_blank_dropped :
     by `hole_is_data`), values *marked safe* are plain escaped text (the property does not constrain
     safe values, but a safe value with tags puts the whole template outside this theorem);
     `listOk` — operands of `Markup` operators are str / Markup / `__html__` objects and `%` does
-    not raise (domain of C18).  `py:attrs` is covered as the code is (blank values dropped); its
-    value-level statement is `attrs_site_partial`.  XML-level normalisation is outside `readDoc`;
+    not raise (domain of C18).  `py:attrs` is covered as the code is (only `None` removes); its
+    value-level statement is `attrs_site`.  XML-level normalisation is outside `readDoc`;
     see `text_roundtrip_xml_partial` / `attr_roundtrip_xml_partial`. -/
 theorem structure_preserved_partial (m : Method) (strip : Bool) (T : List Subst.Node) (env : Env)
     (hT : nodesOkB m T = true) (hdom : listOk env T = true) (henv : EnvOk env) :
@@ -597,11 +593,11 @@ theorem reread_tree (m : Method) (strip : Bool) (T : List Subst.Node) (env : Env
     lengths of sequences, `None`-ness and the kinds of values stay): the elements, their order
     and nesting, and their attribute *names*, as re-read from the rendered output, are the same.
     (`tagsOf` erases character data and attribute values.)
-    Hypotheses: those of `structure_preserved_partial`, and `KeepsBlank f` — `f` does not make a
-    `py:attrs` value blank or non-blank (the one place where the text of a value decides whether
-    an attribute exists: finding C01-attrs-blank-dropped). -/
+    Hypotheses: those of `structure_preserved_partial` only — for EVERY `f`.  (Before fix ce82919
+    `py:attrs` dropped a value that was blank after trimming: the one place where the text of a value
+    decided whether an attribute exists; the theorem then needed `KeepsBlank f`.) -/
 theorem payload_is_data (m : Method) (strip : Bool) (T : List Subst.Node) (env : Env) (f : List Char → List Char)
-    (hT : nodesOkB m T = true) (hdom : listOk env T = true) (henv : EnvOk env) (hf : KeepsBlank f) :
+    (hT : nodesOkB m T = true) (hdom : listOk env T = true) (henv : EnvOk env) :
     ∃ out out',
       readDoc m (serialize m strip (renderList env T)) = some out ∧
       readDoc m (serialize m strip (renderList (env.map (·.retext f)) (Subst.Node.retextList f T))) = some out' ∧
@@ -610,7 +606,7 @@ theorem payload_is_data (m : Method) (strip : Bool) (T : List Subst.Node) (env :
   have h2 := structure_preserved_partial m strip (Subst.Node.retextList f T) (env.map (·.retext f))
     (by rw [nodesOkB_retext]; exact hT) (by rw [listOk_retext]; exact hdom) (envOk_retext f env henv)
   refine ⟨_, _, h1, h2, ?_⟩
-  have hsk := list_skel f hf T env
+  have hsk := list_skel f T env
   cases strip with
   | false =>
     simp only [Bool.false_eq_true, ↓reduceIte, tagsOf_coalesce]
